@@ -7,6 +7,7 @@ CONSTANTS MaxLinks = 3
  Damage = 0
  Clamp = TRUE
  Trim = FALSE
+ SearchFrom = "dataoffset"
 INVARIANT OpenSucceeds
 INVARIANT LinkTableIsTheTruth
 CHECK_DEADLOCK FALSE
